@@ -85,7 +85,7 @@ var (
 
 const c05Addr = "127.0.0.1:0"
 
-var c05AEPool = []string{"-", "", "gzip", "br", "gzip, br", "br, gzip", "gzip, deflate, br", "deflate", "identity", "zstd", "lz4, snz", "x-gzip", "compress", "deflate, gzip", "gzip,br", "pack200-gzip", "zstd, br"}
+var c05AEPool = []string{"-", "", "gzip", "br", "gzip, br", "br, gzip", "gzip, deflate, br", "deflate", "identity", "zstd", "lz4, snz", "x-gzip", "compress", "deflate, gzip", "gzip,br", "pack200-gzip", "zstd, br", "pack200-gzip, gzip", "x-br, br", "x-gzip, gzip"}
 
 func genC05(thorough bool) func(t *rapid.T) c05Scenario {
 	return func(t *rapid.T) c05Scenario {
